@@ -40,6 +40,7 @@ fn main() {
         Some("print-family") => {
             let dir = PathBuf::from(args.get(2).expect("dir"));
             print_family(&dir, 7);
+            print_pfamily(&dir.join("p"), 3);
         }
         _ => {
             eprintln!("usage: gen-sim run --tier quick|thorough [--seed N] | replay <file> | drive ...");
@@ -267,6 +268,40 @@ fn print_pfamily(dir: &Path, nfiles: usize) -> Vec<PathBuf> {
         std::fs::write(&p, s).unwrap();
         entries.push(p);
     }
+    // type graphs (see the thrift family): message cycles of length 2..5, a double at every position
+    let mut s = String::from("syntax = \"proto3\";\npackage pfam.graph;\n\nmessage P0 { double d = 1; }\nmessage P1 { repeated float fs = 1; }\n");
+    let ng = 12;
+    for g in 0..ng {
+        let l = 2 + g % 4;
+        let pz = g % l;
+        for i in 0..l {
+            s.push_str(&format!("message G{}n{} {{\n", g, i));
+            let next = format!("G{}n{}", g, (i + 1) % l);
+            let edge = match (g + i) % 3 {
+                0 => format!("  {} next = 1;\n", next),
+                1 => format!("  repeated {} next = 1;\n", next),
+                _ => format!("  oneof sel {{ {} next = 1; string other = 6; }}\n", next),
+            };
+            let poison = if g % 5 != 0 && i == pz { format!("  P{} p = 9;\n", g % 2) } else { String::new() };
+            if g % 2 == 1 {
+                s.push_str(&poison);
+                s.push_str(&edge);
+            } else {
+                s.push_str(&edge);
+                s.push_str(&poison);
+            }
+            if g % 3 == 0 && i == 0 {
+                s.push_str(&format!("  G{}n{} back = 2;\n", g, l - 1));
+            }
+            if g % 6 == 1 && i == 1 {
+                s.push_str(&format!("  G{}n0 chain = 3;\n", (g + 1) % ng));
+            }
+            s.push_str("  int64 v = 7;\n  repeated string tags = 8;\n}\n");
+        }
+    }
+    let p = dir.join("pfamgraph.proto");
+    std::fs::write(&p, s).unwrap();
+    entries.push(p);
     entries
 }
 
